@@ -53,6 +53,25 @@ Theorem C12_reject_unmatched : forall apropos fuel a its st ls tot order l r st'
   dispatch_printed apropos fuel a its st = Some (r, st') -> r < 0.
 Proof. exact reject_unmatched. Qed.
 
+(* "a line no port accepts", in general: whatever the reason no port accepts the line when its
+   turn comes in the load order - the result is negative and nothing behind it is dispatched;
+   the reasons: unknown address (above), an argument the port does not take, a line / port
+   array mismatch, a port below a pointer sub-tree that is absent at that moment *)
+Theorem C12_reject_unaccepted : forall apropos fuel a its st ls tot order pre l post s r st',
+  rd_nonneg its -> scan_items its = (ls, tot, true) ->
+  load_order apropos fuel (map (fun l => (l_path l, l)) ls) = Some order ->
+  pick ls dummy_line order = pre ++ l :: post ->
+  apply_all a pre st = (s, true) -> apply_line a l s = None ->
+  dispatch_printed apropos fuel a its st = Some (r, st') -> r < 0 /\ st' = s.
+Proof. exact reject_unaccepted. Qed.
+
+Theorem C12_unaccepted_causes : forall a l i v s,
+  find_port a (l_path l) = Some i ->
+  (l_array l = false -> l_vals l = [v] -> store (port_at a i) v = None -> apply_line a l s = None) /\
+  (l_array l <> p_array (port_at a i) -> apply_line a l s = None) /\
+  (l_array l = false -> l_vals l = [v] -> exists_ a s i = false -> apply_line a l s = None).
+Proof. exact unaccepted_causes. Qed.
+
 Theorem C12_reject_propagates : forall apropos fuel a name f st n1 n2 r st',
   f_h1 f = Some n1 -> f_h2 f = Some (name, n2) -> 0 <= n1 -> 0 <= n2 ->
   dispatch_printed apropos fuel a (f_items f) st = Some (r, st') -> r < 0 ->
